@@ -135,6 +135,23 @@ pub fn attack_programs() -> Vec<(&'static str, &'static str)> {
         ("big-maps", "@use \"sass:map\";\n@use \"sass:meta\";\n$m: (z: 1, y: 2, x: 3, w: 4, v: 5, u: 6, t: 7, s: 8, a: 9, b: 10);\n$n: map.merge($m, (k: 11, c: 12));\na { k: meta.inspect(map.keys($n)); v: meta.inspect(map.values($n)); r: meta.inspect(map.remove($n, y, w)); i: meta.inspect($n); @each $k, $v in $n { p-#{$k}: $v; } }\n"),
         ("many-selectors", "@use \"sass:selector\";\n.z, .y .x, .w > .v, .u ~ .t { &:hover, &.s { x: y; } }\na { s: selector.unify(\".a.b.c\", \".d.e.f\"); e: selector.extend(\".a .b, .c .d\", \".b, .d\", \".x, .y, .z\"); r: selector.replace(\".a.b.c\", \".b\", \".q, .r\"); }\n"),
         ("keyword-args", "@use \"sass:meta\";\n@function f($args...) { @return meta.inspect(meta.keywords($args)); }\n@mixin m($z: 1, $y: 2, $x: 3, $w: 4) { o: $z $y $x $w; }\na { k: f($z: 1, $y: 2, $x: 3, $w: 4, $a: 5); @include m($w: 9, $x: 8, $y: 7, $z: 6); }\n"),
+        // deep but finite user-function recursion: a depth guard must count per compilation, not per process
+        ("deep-recursion-140", "@function r($n) { @if $n <= 0 { @return 0; } @return 1 + r($n - 1); }\na { b: r(140); }\n"),
+        ("deep-recursion-220", "@function r($n) { @if $n <= 0 { @return 0; } @return 1 + r($n - 1); }\n@function s($n) { @return r($n); }\na { b: s(220); c: r(10); }\n"),
+        ("deep-mixin-recursion", "@mixin m($n) { @if $n > 0 { x-#{$n} { @include m($n - 1); } } }\na { @include m(60); }\n"),
+        // failures in the middle of building something: whatever was half-built must not survive
+        ("fail-in-selector-interpolation", ".toolbar .btn-#{$undefined-sel} { a: b; }\n"),
+        ("fail-in-selector-interpolation-2", "ul.menu > .item-#{1 + $undefined-sel}, .other { a: b; }\nq { r: s; }\n"),
+        ("fail-in-property-name", "a { margin-#{$undefined-prop}: 1px; b: c; }\n"),
+        ("fail-in-media-query", "@media screen and (min-width: #{$undefined-mq}) { a { b: c; } }\n"),
+        ("fail-in-nested-props", "a { font: { family: x; size: $undefined-np; } }\n"),
+        ("fail-in-function-args", "@use \"sass:math\";\na { b: math.max(1px, 2px, $undefined-arg); }\n"),
+        ("fail-in-map", "$m: (a: 1, b: $undefined-map, c: 3);\na { b: c; }\n"),
+        ("fail-in-each", "@each $k in a b c { .x-#{$k} { y: $k; @if $k == b { z: $undefined-each; } } }\n"),
+        ("fail-in-mixin-content", "@mixin m { w { @content; } }\n@include m { a: b; c: $undefined-content; }\n"),
+        ("fail-in-at-root", "a { b { @at-root .c-#{$undefined-root} { d: e; } } }\n"),
+        ("fail-in-keyframes", "@keyframes k-#{$undefined-kf} { from { a: b; } }\n"),
+        ("plain-after-failures", "a { b: c; }\n.item-1 { d: e; }\n@media screen { f { g: h; } }\n"),
         ("random-unique", "@use \"sass:math\";\na { b: math.random(); c: math.random(10); d: unique-id(); }\n"),
         ("unique-many", "@for $i from 1 through 20 { x { y: unique-id(); } }\n"),
     ]
